@@ -45,6 +45,8 @@ class Joint:
             S[o:o + nw, o:o + nw] = np.diag(np.asarray(sw_by_t[t], dtype=float) ** 2)
         self.S = S
         self.Ax, self.mx, self.Ay, self.my, self.Au, self.Aw = [], [], [], [], [], []
+        self.Bx = [None] * N
+        self.By = [None] * N
         Acur = np.zeros((nx, ne))
         Acur[:, :nx] = np.eye(nx)
         mcur = mu0.copy()
@@ -76,7 +78,12 @@ class Joint:
         yo = np.array([data[(t, i)] for t, i in cells])
         return Ao, mo, yo
 
-    def condition(self, cells, data, A, m):
+    nunit = 0
+
+    def estimate_delta(self, cells, data):
+        return 1.0
+
+    def condition(self, cells, data, A, m, B=None):
         """mean and covariance of (m + A e) given the observed cells"""
         prior = A @ self.S @ A.T
         if not cells:
@@ -107,4 +114,127 @@ class Joint:
             return 0.0
         Ao, mo, yo = self._obs(cells, data)
         r = yo - mo
+        return float(r @ np.linalg.solve(Ao @ self.S @ Ao.T, r))
+
+
+class JointFixedUnknown:
+    """Same stacking for models with unit roots under "fixed unknown" initial conditions, in the coordinates of
+    the reported block-triangular solution  alpha_t = Ta alpha_{t-1} + Ka + Pa u_t,  x_t = Ua alpha_t,
+    y_t = Za alpha_t + D + H w_t:  the first `nunit` elements of alpha_0 are a fixed unknown vector delta, the
+    remaining (stable) elements follow the stationary law of the stable block.  Every quantity is
+    mean + A e + B delta with e = (s_0 - mu_s, u_1..u_N, w_1..w_N).  delta is estimated by GLS from the observed
+    cells (concentrated likelihood); conditional moments are taken at delta = delta_hat."""
+
+    def __init__(self, Ta, Pa, Ka, Ua, Za, H, D, nunit, su_init, su_by_t, sw_by_t, deviation=False):
+        Ta, Pa, Ka, Ua, Za, H, D = (np.asarray(a, dtype=float) for a in (Ta, Pa, Ka, Ua, Za, H, D))
+        na, nu = Pa.shape
+        ny = Za.shape[0]
+        nw = H.shape[1] if H.ndim == 2 else 0
+        N = len(su_by_t)
+        self.N, self.nunit = N, nunit
+        ns = na - nunit
+        if deviation:
+            Ka = np.zeros_like(Ka)
+            D = np.zeros_like(D)
+        Tss = Ta[nunit:, nunit:]
+        mu_s = np.linalg.solve(np.eye(ns) - Tss, Ka[nunit:]) if ns else np.zeros(0)
+        Su0 = np.diag(np.asarray(su_init, dtype=float) ** 2)
+        Ps = Pa[nunit:, :]
+        if ns:
+            Om_s = np.linalg.solve(np.eye(ns * ns) - np.kron(Tss, Tss), (Ps @ Su0 @ Ps.T).reshape(-1)).reshape(ns, ns)
+            Om_s = 0.5 * (Om_s + Om_s.T)
+        else:
+            Om_s = np.zeros((0, 0))
+        ne = ns + N * nu + N * nw
+        S = np.zeros((ne, ne))
+        S[:ns, :ns] = Om_s
+        for t in range(N):
+            o = ns + t * nu
+            S[o:o + nu, o:o + nu] = np.diag(np.asarray(su_by_t[t], dtype=float) ** 2)
+            o = ns + N * nu + t * nw
+            S[o:o + nw, o:o + nw] = np.diag(np.asarray(sw_by_t[t], dtype=float) ** 2)
+        self.S = S
+        A = np.zeros((na, ne))
+        A[nunit:, :ns] = np.eye(ns)
+        B = np.zeros((na, nunit))
+        B[:nunit, :] = np.eye(nunit)
+        m = np.concatenate([np.zeros(nunit), mu_s])
+        self.Ax, self.Bx, self.mx, self.Ay, self.By, self.my, self.Au, self.Aw = [], [], [], [], [], [], [], []
+        for t in range(N):
+            A = Ta @ A
+            A[:, ns + t * nu: ns + (t + 1) * nu] += Pa
+            B = Ta @ B
+            m = Ta @ m + Ka
+            self.Ax.append(Ua @ A)
+            self.Bx.append(Ua @ B)
+            self.mx.append(Ua @ m)
+            Ay = Za @ A
+            o = ns + N * nu + t * nw
+            if nw:
+                Ay = Ay.copy()
+                Ay[:, o:o + nw] += H
+            self.Ay.append(Ay)
+            self.By.append(Za @ B)
+            self.my.append(Za @ m + D)
+            E = np.zeros((nu, ne))
+            E[:, ns + t * nu: ns + (t + 1) * nu] = np.eye(nu)
+            self.Au.append(E)
+            E = np.zeros((nw, ne))
+            if nw:
+                E[:, o:o + nw] = np.eye(nw)
+            self.Aw.append(E)
+        self.delta = np.zeros(nunit)
+
+    def _obs(self, cells, data):
+        Ao = np.vstack([self.Ay[t][i] for t, i in cells])
+        Bo = np.vstack([self.By[t][i] for t, i in cells])
+        mo = np.array([self.my[t][i] for t, i in cells])
+        yo = np.array([data[(t, i)] for t, i in cells])
+        return Ao, Bo, mo, yo
+
+    def estimate_delta(self, cells, data):
+        """GLS estimate of delta from ALL observed cells (minimum-norm when not identified); returns the
+        conditioning of the GLS normal matrix"""
+        if not cells or not self.nunit:
+            self.delta = np.zeros(self.nunit)
+            return 1.0
+        Ao, Bo, mo, yo = self._obs(cells, data)
+        Soo = Ao @ self.S @ Ao.T
+        W = np.linalg.solve(Soo, Bo)
+        G = Bo.T @ W
+        self.delta = np.linalg.lstsq(G, W.T @ (yo - mo), rcond=None)[0]
+        sv = np.linalg.svd(G, compute_uv=False)
+        # identified only if the information about every direction of delta is well above rounding level
+        return float(sv[0] / sv[-1]) if sv[-1] > 1e-9 else np.inf
+
+    def cond_number(self, cells):
+        if not cells:
+            return 1.0
+        Ao = np.vstack([self.Ay[t][i] for t, i in cells])
+        return float(np.linalg.cond(Ao @ self.S @ Ao.T))
+
+    def condition(self, cells, data, A, m, B=None):
+        shift = (B @ self.delta) if B is not None else 0.0
+        prior = A @ self.S @ A.T
+        if not cells:
+            return m + shift, prior
+        Ao, Bo, mo, yo = self._obs(cells, data)
+        Soo = Ao @ self.S @ Ao.T
+        C = A @ self.S @ Ao.T
+        G = np.linalg.solve(Soo, C.T).T
+        return m + shift + G @ (yo - mo - Bo @ self.delta), prior - G @ C.T
+
+    def nll(self, cells, data, var_scale=1.0):
+        if not cells:
+            return 0.0
+        Ao, Bo, mo, yo = self._obs(cells, data)
+        Soo = Ao @ self.S @ Ao.T * var_scale
+        r = yo - mo - Bo @ self.delta
+        return 0.5 * (len(cells) * LOG2PI + np.linalg.slogdet(Soo)[1] + r @ np.linalg.solve(Soo, r))
+
+    def mahalanobis(self, cells, data):
+        if not cells:
+            return 0.0
+        Ao, Bo, mo, yo = self._obs(cells, data)
+        r = yo - mo - Bo @ self.delta
         return float(r @ np.linalg.solve(Ao @ self.S @ Ao.T, r))
